@@ -70,7 +70,8 @@ long   g_ha, g_hb;                     /* range of the call under proof */
 int    g_in_body;                      /* 1 from the first statement of aux's body */
 size_t g_is, g_fs, g_as, g_rs, g_ts;   /* strides: ids, funcs, args, results, attrs */
 void * g_ids, * g_attrs, * g_res;      /* base pointers or NULL */
-long   g_count, g_c0; int g_calls, g_bad;
+unsigned long g_count;                /* user-function calls, modulo 2^64 (n < 2^63: exact) */
+int    g_calls, g_bad;
 long   g_wrc, g_wic;                   /* cell index of item g_w's result / id slot (0 when there is none) */
 void * g_warg, * g_ret, * g_ret_o;
 void * g_wid;                          /* thread that ran item g_w */
@@ -118,14 +119,14 @@ myth_thread_t * IDS;    long g_ni;
 /* ------------------------------------------------------------------ the user's functions */
 #define IDENT (g_as >= 1 || g_fs >= 8)
 static void * F_watch(void * arg) {
-  if (g_count < LONG_MAX) g_count++;
+  g_count++;
   if (!IDENT) return g_ret;
   if (arg == g_warg) { if (g_calls < 2) g_calls++; g_wid = g_self; return g_ret; }
   if (g_fs >= 8) g_bad = 1;
   return g_ret_o;
 }
 static void * F_other(void * arg) {
-  if (g_count < LONG_MAX) g_count++;
+  g_count++;
   if (g_as >= 1 && arg == g_warg) g_bad = 1;
   return g_ret_o;
 }
@@ -144,14 +145,14 @@ static void * F_other(void * arg) {
               : MA(m)->funcs == (void *)FUNCS) && \
    g_ha <= MA(m)->a && MA(m)->a < MA(m)->b && MA(m)->b <= g_hb)
 #define GHOSTS_OK \
-  (0 <= g_c0 && g_c0 <= LONG_MAX / 2 && g_c0 <= g_count && g_count <= g_c0 + (g_hb - g_ha) && g_bad == 0 && 0 <= g_calls && g_calls <= 1 && \
+  (g_bad == 0 && 0 <= g_calls && g_calls <= 1 && \
    g_p0 >= 0 && g_p0 <= LONG_MAX / 2 && g_p0 <= g_pending && g_pending <= g_p0 + 1)
 #define SMALLER(a, b) ((b) - (a) < g_hb - g_ha)
 #define OLD(x) __CPROVER_old(x)
 
 /* effect of running every item of [a, b) exactly once, as a list of ensures clauses */
 #define RANGE_ENSURES_NP(a, b) \
-  __CPROVER_ensures(g_count == OLD(g_count) + ((b) - (a)))                /* 1 exactly b - a user calls */ \
+  __CPROVER_ensures(g_count == OLD(g_count) + (unsigned long)((b) - (a)))   /* 1 exactly b - a user calls */ \
   __CPROVER_ensures(g_bad == 0)                                           /* 2 no item's argument given to another item's function */ \
   __CPROVER_ensures(g_calls == OLD(g_calls) + ((IDENT && INR(a, b)) ? 1 : 0))   /* 3 item g_w: exactly once iff in range */ \
   __CPROVER_ensures((IDENT && !INR(a, b)) ==> g_wid == OLD(g_wid))        /* 4 */ \
@@ -176,7 +177,6 @@ void * aux_contract(void * meta_arg_)
   /* decreases b - a: the call under proof has the range [g_ha, g_hb); every call from inside its body is strictly smaller */
   __CPROVER_requires(g_in_body == 0 ? (MA(meta_arg_)->a == g_ha && MA(meta_arg_)->b == g_hb && g_pending == g_p0)
                                     : SMALLER(MA(meta_arg_)->a, MA(meta_arg_)->b))
-  __CPROVER_requires(g_count + (MA(meta_arg_)->b - MA(meta_arg_)->a) <= g_c0 + (g_hb - g_ha))
   __CPROVER_assigns(g_in_body; RANGE_ASSIGNS)
   __CPROVER_ensures(__CPROVER_return_value == 0 && g_in_body == 1)
   RANGE_ENSURES(OLD(MA(meta_arg_)->a), OLD(MA(meta_arg_)->b))
@@ -209,7 +209,7 @@ int join_contract(myth_thread_t th, void ** result)
   __CPROVER_requires(GHOSTS_OK && g_in_body == 1)
   __CPROVER_requires(th == (myth_thread_t)&THR[1] && g_pending == g_p0 + 1)   /* the outstanding child, once */
   __CPROVER_requires(result == 0)                                              /* aux returns nothing of interest */
-  __CPROVER_requires(g_ha <= g_ca && g_ca < g_cb && g_cb <= g_hb && g_count + (g_cb - g_ca) <= g_c0 + (g_hb - g_ha))
+  __CPROVER_requires(g_ha <= g_ca && g_ca < g_cb && g_cb <= g_hb)
   __CPROVER_assigns(RANGE_ASSIGNS)
   __CPROVER_ensures(__CPROVER_return_value == 0)
   __CPROVER_ensures(g_ca == OLD(g_ca) && g_cb == OLD(g_cb))
@@ -221,7 +221,7 @@ int join_contract(myth_thread_t th, void ** result)
 #define PARAMS_OK \
   ((void *)ids == g_ids && (void *)attrs == g_attrs && args == (void *)ARGS && results == g_res && \
    id_stride == g_is && attr_stride == g_ts && arg_stride == g_as && result_stride == g_rs && \
-   nthreads == g_hb && g_ha == 0 && g_in_body == 0 && g_pending == g_p0 && g_count == g_c0)
+   nthreads == g_hb && g_ha == 0 && g_in_body == 0 && g_pending == g_p0)
 int various_contract(myth_thread_t * ids, myth_thread_attr_t * attrs, myth_func_t * funcs, void * args, void * results,
                      size_t id_stride, size_t attr_stride, size_t func_stride, size_t arg_stride, size_t result_stride,
                      long nthreads)
@@ -353,7 +353,7 @@ static void setup(void) {
   g_self = (void *)&THR[0];
   g_wid = 0; g_calls = 0; g_bad = 0; g_in_body = 0; g_ca = 0; g_cb = 0;
   g_p0 = nondet_long(); __CPROVER_assume(0 <= g_p0 && g_p0 <= LONG_MAX / 2); g_pending = g_p0;
-  g_c0 = nondet_long(); __CPROVER_assume(0 <= g_c0 && g_c0 <= LONG_MAX / 2); g_count = g_c0;
+  g_count = nondet_ulong();
   /* ARGS / FUNCS / ATTRS / RES / IDS: arbitrary content (fresh dynamic objects are nondet) */
 }
 
